@@ -1156,6 +1156,7 @@ impl Blockchain {
             return (false, WALLET_NOT_UPDATED);
         }
 
+        let original_old_chain: &[SaitoHash] = old_chain;
         if old_chain.is_empty() {
             let mut result: WindingResult =
                 WindingResult::Wind(new_chain.len() - 1, false, WALLET_NOT_UPDATED);
@@ -1164,10 +1165,16 @@ impl Blockchain {
                     WindingResult::Wind(current_wind_index, wind_failure, wallet_status) => {
                         wallet_update_status |= wallet_status;
 
+                        // once a block of the new chain has failed, what is left to wind is the old chain
+                        let (chain_to_wind, chain_behind): (&[SaitoHash], &[SaitoHash]) = if wind_failure {
+                            (old_chain, &[])
+                        } else {
+                            (new_chain, old_chain)
+                        };
                         result = self
                             .wind_chain(
-                                new_chain,
-                                old_chain,
+                                chain_to_wind,
+                                chain_behind,
                                 current_wind_index,
                                 wind_failure,
                                 storage,
@@ -1182,9 +1189,11 @@ impl Blockchain {
                         wallet_status,
                     ) => {
                         wallet_update_status |= wallet_status;
+                        // after unwinding a partially wound new chain the old chain is wound back
+                        let chain_to_wind_next: &[SaitoHash] = if wind_failure { original_old_chain } else { new_chain };
                         result = self
                             .unwind_chain(
-                                new_chain,
+                                chain_to_wind_next,
                                 old_chain.as_slice(),
                                 current_unwind_index,
                                 wind_failure,
@@ -1200,15 +1209,21 @@ impl Blockchain {
                 }
             }
         } else if !new_chain.is_empty() {
-            let mut result = WindingResult::Unwind(0, true, old_chain.to_vec(), WALLET_NOT_UPDATED);
+            let mut result = WindingResult::Unwind(0, false, old_chain.to_vec(), WALLET_NOT_UPDATED);
             loop {
                 match result {
                     WindingResult::Wind(current_wind_index, wind_failure, wallet_status) => {
                         wallet_update_status |= wallet_status;
+                        // once a block of the new chain has failed, what is left to wind is the old chain
+                        let (chain_to_wind, chain_behind): (&[SaitoHash], &[SaitoHash]) = if wind_failure {
+                            (old_chain, &[])
+                        } else {
+                            (new_chain, old_chain)
+                        };
                         result = self
                             .wind_chain(
-                                new_chain,
-                                old_chain,
+                                chain_to_wind,
+                                chain_behind,
                                 current_wind_index,
                                 wind_failure,
                                 storage,
@@ -1223,9 +1238,11 @@ impl Blockchain {
                         wallet_status,
                     ) => {
                         wallet_update_status |= wallet_status;
+                        // after unwinding a partially wound new chain the old chain is wound back
+                        let chain_to_wind_next: &[SaitoHash] = if wind_failure { original_old_chain } else { new_chain };
                         result = self
                             .unwind_chain(
-                                new_chain,
+                                chain_to_wind_next,
                                 old_chain.as_slice(),
                                 current_wind_index,
                                 wind_failure,
@@ -1388,7 +1405,7 @@ impl Blockchain {
                 return WindingResult::FinishWithSuccess(wallet_updated);
             }
 
-            WindingResult::Wind(current_wind_index - 1, false, wallet_updated)
+            WindingResult::Wind(current_wind_index - 1, wind_failure, wallet_updated)
         } else {
             // we have had an error while winding the chain. this requires us to
             // unwind any blocks we have already wound, and rewind any blocks we
@@ -1403,6 +1420,10 @@ impl Blockchain {
                 block.id,
                 block.hash.to_hex()
             );
+            if wind_failure {
+                // we are already rolling the old chain back in after a failure: nothing left to fall back to
+                return WindingResult::FinishWithFailure;
+            }
             if current_wind_index == new_chain.len() - 1 {
                 // this is the first block we have tried to add
                 // and so we can just roll out the older chain
@@ -1607,7 +1628,7 @@ impl Blockchain {
             //
             // winding requires starting at the END of the vector and rolling
             // backwards until we have added block #5, etc.
-            WindingResult::Wind(new_chain.len() - 1, wind_failure, wallet_updated)
+            WindingResult::Wind(new_chain.len().saturating_sub(1), wind_failure, wallet_updated)
         } else {
             // continue unwinding,, which means
             //
